@@ -110,6 +110,13 @@ fn pick_keys(pool: &[Reg], n: usize, rng: &mut ChaCha20Rng) -> Vec<Reg> {
 }
 
 fn stakes_with_ties(n: usize, kind: u64, rng: &mut ChaCha20Rng) -> Vec<u64> {
+    // two profiles in six carry real-world magnitudes: a total stake above 2^53 that no f64 holds
+    // exactly (mainnet's total is ~2.2e16 lovelace)
+    match kind % 6 {
+        4 => return (0..n).map(|i| (22_500_000_000_000_007u64 / n as u64) + 2 * i as u64 + 1 + rnd::below(rng, 1000)).collect(),
+        5 => return (0..n).map(|_| (1u64 << 53) / (n as u64) + (1 << 40) + 1 + 2 * rnd::below(rng, 1 << 30)).collect(),
+        _ => {}
+    }
     match kind % 4 {
         0 => vec![7; n],
         1 => (0..n).map(|i| 1 + (i as u64 % 3)).collect(),
@@ -159,6 +166,30 @@ pub fn run_stm_level(shard: u64, mon: &mut Monitor, sets: u64) {
             }
         };
         mon.count("sets");
+        if base.total > (1u64 << 53) {
+            mon.count("sets_with_a_total_stake_above_2^53");
+        }
+        // the resulting key through its own encodings (bytes, JSON): same bytes, same total stake
+        {
+            mon.eval();
+            let decoded = catch(|| AggregateVerificationKeyForConcatenation::<D>::from_bytes(&base.avk_bytes));
+            match decoded {
+                Ok(Ok(k)) => {
+                    let again = k.to_bytes().unwrap_or_default();
+                    let via_json = serde_json::to_string(&k).ok().and_then(|t| serde_json::from_str::<AggregateVerificationKeyForConcatenation<D>>(&t).ok());
+                    let json_ok = via_json.as_ref().map(|j| j.to_bytes().unwrap_or_default() == base.avk_bytes && j.get_total_stake() == base.total);
+                    if again != base.avk_bytes || k.get_total_stake() != base.total || json_ok != Some(true) {
+                        mon.violation(
+                            "C06 aggregate key changed by its own encode / decode round trip",
+                            &format!("total stake {}: bytes round trip equal: {}, decoded total {}, JSON round trip equal: {:?}", base.total, again == base.avk_bytes, k.get_total_stake(), json_ok),
+                            json!({"set": set_key(&regs), "avk_hex": vcore::hex(&base.avk_bytes), "total_stake": base.total}),
+                        );
+                    }
+                }
+                Ok(Err(e)) => mon.violation("C06 aggregate key changed by its own encode / decode round trip", &format!("the key's own bytes do not decode: {e}"), json!({"set": set_key(&regs)})),
+                Err(p) => mon.violation("C06 registration panics", &p, json!({"set": set_key(&regs), "with": "key round trip"})),
+            }
+        }
         if mon.wants_sample() && shard == 0 {
             mon.sample(json!({"level": "stm", "parties": n, "stakes": regs.iter().map(|r| r.stake).collect::<Vec<_>>(),
                 "avk_hex": vcore::hex(&base.avk_bytes), "total_stake": base.total}));
